@@ -1,17 +1,1180 @@
-//! Engine `symb` — placeholder (not written yet).
+//! Engine `symb` (C11): `SymbolFile::from_bytes` + `SymbolFile::fill_symbol` (recording
+//! `FrameSymbolizer`) and `minidump_unwind::walk_stack` (for `fill_source_line_info`'s module
+//! lookup and `inlines.reverse()`) against the Lean model `MdModel.Symbolize`, plus the property's
+//! own oracle evaluated on the implementation's answers.
+//!
+//! case line: `symb fill base:<b> msize:<m> q:<a>,<a>,.. r <rec> <rec> ...` (numbers decimal)
+//!   rec:  F:<id>:<name>  O:<id>:<name>  P:<addr>:<psize>:<name>  W:<4|0>:<addr>:<size>:<psize>
+//!         U:<addr>:<size>:<psize>:<name>  L:<addr>:<size>:<line>:<file>
+//!         I:<depth>:<line>:<file>:<origin>:<a>/<s>+<a>/<s>..   o:<id>:<name>
+//! The engine renders the records as symbol-file text for the real parser; the model reads the
+//! records themselves — so the tie covers parser + table building + lookup.
+
 use crate::common::*;
+use breakpad_symbols::{FrameSymbolizer, SymbolFile};
+use minidump::format::CONTEXT_AMD64;
+use minidump::system_info::{Cpu, Os};
+use minidump::{
+    MinidumpContext, MinidumpContextValidity, MinidumpModule, MinidumpModuleList, MinidumpRawContext,
+};
+use minidump_unwind::{string_symbol_supplier, walk_stack, CallStack, Symbolizer, SystemInfo};
+use std::collections::HashMap;
+use std::fmt::Write as _;
 
 pub struct Symb;
+
+#[derive(Clone, Debug, PartialEq)]
+enum R {
+    File(u32, String),
+    Origin(u32, String),
+    OriginIn(u32, String),
+    Pub(u64, u32, String),
+    Win(u8, u64, u32, u32),
+    Func(u64, u32, u32, String),
+    Line(u64, u32, u32, u32),                     // addr size line file
+    Inline(u32, u32, u32, u32, Vec<(u64, u32)>), // depth line file origin ranges
+}
+
+struct Case {
+    base: u64,
+    msize: u32,
+    qs: Vec<u64>,
+    recs: Vec<R>,
+}
+
+fn name_ok(s: &str) -> bool {
+    !s.is_empty() && s.bytes().all(|b| b.is_ascii_alphanumeric() || b == b'_')
+}
+
+fn parse_case(case: &str) -> Option<Case> {
+    let f: Vec<&str> = case.split(' ').filter(|s| !s.is_empty()).collect();
+    if f.len() < 6 || f[0] != "symb" || f[1] != "fill" || f[5] != "r" {
+        return None;
+    }
+    let base: u64 = f[2].strip_prefix("base:")?.parse().ok()?;
+    let msize: u32 = f[3].strip_prefix("msize:")?.parse().ok()?;
+    let qs = f[4]
+        .strip_prefix("q:")?
+        .split(',')
+        .filter(|s| !s.is_empty())
+        .map(|s| s.parse::<u64>().ok())
+        .collect::<Option<Vec<_>>>()?;
+    let mut recs = vec![];
+    let mut open = false;
+    for tok in &f[6..] {
+        let p: Vec<&str> = tok.split(':').collect();
+        let r = match (p[0], p.len()) {
+            ("F", 3) if name_ok(p[2]) => R::File(p[1].parse().ok()?, p[2].into()),
+            ("O", 3) if name_ok(p[2]) => R::Origin(p[1].parse().ok()?, p[2].into()),
+            ("o", 3) if name_ok(p[2]) => R::OriginIn(p[1].parse().ok()?, p[2].into()),
+            ("P", 4) if name_ok(p[3]) => R::Pub(p[1].parse().ok()?, p[2].parse().ok()?, p[3].into()),
+            ("W", 5) => {
+                let ty: u8 = p[1].parse().ok()?;
+                if ty != 4 && ty != 0 {
+                    return None;
+                }
+                R::Win(ty, p[2].parse().ok()?, p[3].parse().ok()?, p[4].parse().ok()?)
+            }
+            ("U", 5) if name_ok(p[4]) => {
+                R::Func(p[1].parse().ok()?, p[2].parse().ok()?, p[3].parse().ok()?, p[4].into())
+            }
+            ("L", 5) => R::Line(p[1].parse().ok()?, p[2].parse().ok()?, p[3].parse().ok()?, p[4].parse().ok()?),
+            ("I", 6) => {
+                let mut rs = vec![];
+                for x in p[5].split('+') {
+                    let (a, s) = x.split_once('/')?;
+                    rs.push((a.parse().ok()?, s.parse().ok()?));
+                }
+                if rs.is_empty() {
+                    return None;
+                }
+                R::Inline(p[1].parse().ok()?, p[2].parse().ok()?, p[3].parse().ok()?, p[4].parse().ok()?, rs)
+            }
+            _ => return None,
+        };
+        match r {
+            R::Func(..) => open = true,
+            R::Line(..) | R::Inline(..) | R::OriginIn(..) => {
+                if !open {
+                    return None;
+                }
+            }
+            _ => open = false,
+        }
+        recs.push(r);
+    }
+    Some(Case { base, msize, qs, recs })
+}
+
+fn tok(r: &R) -> String {
+    match r {
+        R::File(i, n) => format!("F:{i}:{n}"),
+        R::Origin(i, n) => format!("O:{i}:{n}"),
+        R::OriginIn(i, n) => format!("o:{i}:{n}"),
+        R::Pub(a, p, n) => format!("P:{a}:{p}:{n}"),
+        R::Win(t, a, s, p) => format!("W:{t}:{a}:{s}:{p}"),
+        R::Func(a, s, p, n) => format!("U:{a}:{s}:{p}:{n}"),
+        R::Line(a, s, l, f) => format!("L:{a}:{s}:{l}:{f}"),
+        R::Inline(d, l, f, o, rs) => format!(
+            "I:{d}:{l}:{f}:{o}:{}",
+            rs.iter().map(|(a, s)| format!("{a}/{s}")).collect::<Vec<_>>().join("+")
+        ),
+    }
+}
+
+fn render_case(base: u64, msize: u32, qs: &[u64], recs: &[R]) -> String {
+    format!(
+        "symb fill base:{base} msize:{msize} q:{} r {}",
+        qs.iter().map(|q| q.to_string()).collect::<Vec<_>>().join(","),
+        recs.iter().map(tok).collect::<Vec<_>>().join(" ")
+    )
+}
+
+/// the records as symbol-file text
+fn render_text(recs: &[R]) -> String {
+    let mut t = String::from("MODULE Linux x86_64 000000000000000000000000000000000 m\n");
+    for r in recs {
+        match r {
+            R::File(i, n) => writeln!(t, "FILE {i} {n}"),
+            R::Origin(i, n) | R::OriginIn(i, n) => writeln!(t, "INLINE_ORIGIN {i} {n}"),
+            R::Pub(a, p, n) => writeln!(t, "PUBLIC {a:x} {p:x} {n}"),
+            R::Win(4, a, s, p) => writeln!(t, "STACK WIN 4 {a:x} {s:x} 0 0 {p:x} 0 0 0 1 $eip"),
+            R::Win(_, a, s, p) => writeln!(t, "STACK WIN 0 {a:x} {s:x} 0 0 {p:x} 0 0 0 0 1"),
+            R::Func(a, s, p, n) => writeln!(t, "FUNC {a:x} {s:x} {p:x} {n}"),
+            R::Line(a, s, l, f) => writeln!(t, "{a:x} {s:x} {l} {f}"),
+            R::Inline(d, l, f, o, rs) => {
+                let _ = write!(t, "INLINE {d} {l} {f} {o}");
+                for (a, s) in rs {
+                    let _ = write!(t, " {a:x} {s:x}");
+                }
+                writeln!(t)
+            }
+        }
+        .unwrap();
+    }
+    t
+}
+
+// ------------------------------------------------------------------------- observed frames
+
+#[derive(Default, Clone, Debug, PartialEq)]
+struct Frame {
+    func: Option<(String, u64, u32)>,
+    src: Option<(String, u32, u64)>,
+    inl: Vec<(String, Option<String>, Option<u32>)>,
+}
+
+struct Recorder {
+    instruction: u64,
+    fr: Frame,
+}
+impl FrameSymbolizer for Recorder {
+    fn get_instruction(&self) -> u64 {
+        self.instruction
+    }
+    fn set_function(&mut self, name: &str, base: u64, parameter_size: u32) {
+        self.fr.func = Some((name.to_string(), base, parameter_size));
+    }
+    fn set_source_file(&mut self, file: &str, line: u32, base: u64) {
+        self.fr.src = Some((file.to_string(), line, base));
+    }
+    fn add_inline_frame(&mut self, name: &str, file: Option<&str>, line: Option<u32>) {
+        self.fr.inl.push((name.to_string(), file.map(|s| s.to_string()), line));
+    }
+}
+
+fn show_frame(fr: &Frame) -> String {
+    let func = match &fr.func {
+        Some((n, b, p)) => format!("{n},{b},{p}"),
+        None => "-".into(),
+    };
+    let src = match &fr.src {
+        Some((f, l, b)) => format!("{f},{l},{b}"),
+        None => "-".into(),
+    };
+    let inl = fr
+        .inl
+        .iter()
+        .map(|(n, f, l)| {
+            format!(
+                "{n}/{}/{}",
+                f.clone().unwrap_or_else(|| "-".into()),
+                l.map(|x| x.to_string()).unwrap_or_else(|| "-".into())
+            )
+        })
+        .collect::<Vec<_>>()
+        .join("+");
+    format!("fn={func};src={src};inl={inl}")
+}
+
+thread_local! {
+    static RT: tokio::runtime::Runtime = tokio::runtime::Builder::new_current_thread().build().unwrap();
+}
+
+/// frame 0 of `walk_stack` for a context whose instruction pointer is `instr`
+fn walk_frame(symbolizer: &Symbolizer, modules: &MinidumpModuleList, instr: u64) -> Frame {
+    let raw = CONTEXT_AMD64 { rip: instr, ..Default::default() };
+    let context = MinidumpContext {
+        raw: MinidumpRawContext::Amd64(raw),
+        valid: MinidumpContextValidity::All,
+    };
+    let system_info = SystemInfo {
+        os: Os::Linux,
+        os_version: None,
+        os_build: None,
+        cpu: Cpu::X86_64,
+        cpu_info: None,
+        cpu_microcode_version: None,
+        cpu_count: 1,
+    };
+    let mut stack = CallStack::with_context(context);
+    RT.with(|rt| {
+        rt.block_on(walk_stack(0, (), &mut stack, None, modules, &system_info, symbolizer));
+    });
+    let f = &stack.frames[0];
+    Frame {
+        func: match (&f.function_name, f.function_base, f.parameter_size) {
+            (Some(n), Some(b), Some(p)) => Some((n.clone(), b, p)),
+            _ => None,
+        },
+        src: match (&f.source_file_name, f.source_line, f.source_line_base) {
+            (Some(n), Some(l), Some(b)) => Some((n.clone(), l, b)),
+            _ => None,
+        },
+        inl: f
+            .inlines
+            .iter()
+            .map(|i| (i.function_name.clone(), i.source_file_name.clone(), i.source_line))
+            .collect(),
+    }
+}
+
+// ------------------------------------------------------------------------- record view (oracle)
+
+#[derive(Clone, Debug)]
+struct FuncRec {
+    addr: u64,
+    size: u32,
+    psize: u32,
+    name: String,
+    lines: Vec<(u64, u32, u32, u32)>,          // addr size line file
+    inls: Vec<(u32, u64, u32, u32, u32, u32)>, // depth addr size call_file call_line origin
+}
+
+struct View {
+    files: HashMap<u32, String>,
+    origins: HashMap<u32, String>,
+    pubs: Vec<(u64, u32, String)>,
+    funcs: Vec<FuncRec>,
+    wins: Vec<(u8, u64, u32, u32)>,
+}
+
+fn view(recs: &[R]) -> View {
+    let mut v = View { files: HashMap::new(), origins: HashMap::new(), pubs: vec![], funcs: vec![], wins: vec![] };
+    for r in recs {
+        match r {
+            R::File(i, n) => {
+                v.files.insert(*i, n.clone());
+            }
+            R::Origin(i, n) | R::OriginIn(i, n) => {
+                v.origins.insert(*i, n.clone());
+            }
+            R::Pub(a, p, n) => v.pubs.push((*a, *p, n.clone())),
+            R::Win(t, a, s, p) => v.wins.push((*t, *a, *s, *p)),
+            R::Func(a, s, p, n) => v.funcs.push(FuncRec { addr: *a, size: *s, psize: *p, name: n.clone(), lines: vec![], inls: vec![] }),
+            R::Line(a, s, l, f) => v.funcs.last_mut().unwrap().lines.push((*a, *s, *l, *f)),
+            R::Inline(d, l, f, o, rs) => {
+                for (a, s) in rs {
+                    v.funcs.last_mut().unwrap().inls.push((*d, *a, *s, *f, *l, *o));
+                }
+            }
+        }
+    }
+    v
+}
+
+/// `[lo, hi]` of a FUNC / WIN record (`memory_range()`): None if empty or `addr + size` overflows
+fn range_excl(addr: u64, size: u32) -> Option<(u64, u64)> {
+    if size == 0 {
+        return None;
+    }
+    addr.checked_add(size as u64).map(|e| (addr, e - 1))
+}
+/// `[lo, hi]` of a line record: None if empty or `addr + (size-1)` overflows
+fn range_line(addr: u64, size: u32) -> Option<(u64, u64)> {
+    if size == 0 {
+        return None;
+    }
+    addr.checked_add(size as u64 - 1).map(|e| (addr, e))
+}
+fn inl_covers(i: &(u32, u64, u32, u32, u32, u32), a: u64) -> bool {
+    match i.1.checked_add(i.2 as u64) {
+        Some(end) => i.1 <= a && a < end,
+        None => false,
+    }
+}
+fn disjoint(a: (u64, u64), b: (u64, u64)) -> bool {
+    a.1 < b.0 || b.1 < a.0
+}
+fn pairwise_disjoint(rs: &[(u64, u64)]) -> bool {
+    for i in 0..rs.len() {
+        for j in i + 1..rs.len() {
+            if !disjoint(rs[i], rs[j]) {
+                return false;
+            }
+        }
+    }
+    true
+}
+
+impl View {
+    /// the hypothesis of `eq_linear_scan`: valid FUNCs pairwise disjoint; within each FUNC valid lines
+    /// pairwise disjoint and same-depth inlinees pairwise disjoint as half-open intervals
+    /// `[addr, addr+size)` (computed without wrap-around); WIN records of each type pairwise disjoint
+    /// A size-0 inlinee is an empty interval: it overlaps nothing (and the parser drops it — the
+    /// finding `C11-zero-size-inlinee`, fixed by /repo 2be1766, was that it used to hide the sibling
+    /// it lies in).
+    fn non_overlapping(&self) -> bool {
+        let fr: Vec<_> = self.funcs.iter().filter_map(|f| range_excl(f.addr, f.size)).collect();
+        if !pairwise_disjoint(&fr) {
+            return false;
+        }
+        for t in [4u8, 0u8] {
+            let wr: Vec<_> = self.wins.iter().filter(|w| w.0 == t).filter_map(|w| range_excl(w.1, w.2)).collect();
+            if !pairwise_disjoint(&wr) {
+                return false;
+            }
+        }
+        for f in &self.funcs {
+            let lr: Vec<_> = f.lines.iter().filter_map(|l| range_line(l.0, l.1)).collect();
+            if !pairwise_disjoint(&lr) {
+                return false;
+            }
+            for i in 0..f.inls.len() {
+                for j in i + 1..f.inls.len() {
+                    let (x, y) = (&f.inls[i], &f.inls[j]);
+                    if x.0 == y.0 && x.2 > 0 && y.2 > 0 {
+                        let xe = x.1 as u128 + x.2 as u128;
+                        let ye = y.1 as u128 + y.2 as u128;
+                        if !(xe <= y.1 as u128 || ye <= x.1 as u128) {
+                            return false;
+                        }
+                    }
+                }
+            }
+        }
+        true
+    }
+
+    /// independent linear-scan lookup (no range maps, no binary search); relative address `a`
+    fn linear_scan(&self, base: u64, instr: u64) -> Frame {
+        let mut fr = Frame::default();
+        if instr < base {
+            return fr;
+        }
+        let a = instr - base;
+        let func = self.funcs.iter().find(|f| matches!(range_excl(f.addr, f.size), Some((lo, hi)) if lo <= a && a <= hi));
+        if let Some(f) = func {
+            let win = |t: u8| {
+                self.wins
+                    .iter()
+                    .find(|w| w.0 == t && matches!(range_excl(w.1, w.2), Some((lo, hi)) if lo <= a && a <= hi))
+                    .map(|w| w.3)
+            };
+            let psize = win(4).or_else(|| win(0)).unwrap_or(f.psize);
+            fr.func = Some((f.name.clone(), f.addr + base, psize));
+            let line = f.lines.iter().find(|l| matches!(range_line(l.0, l.1), Some((lo, hi)) if lo <= a && a <= hi));
+            let at = |d: u32| f.inls.iter().find(|i| i.0 == d && inl_covers(i, a));
+            if let Some(x) = at(0) {
+                if let Some(file) = self.files.get(&x.3) {
+                    fr.src = Some((file.clone(), x.4, x.1 + base));
+                }
+                let mut origin = x.5;
+                let mut d = 1;
+                while let Some(y) = at(d) {
+                    if let Some(name) = self.origins.get(&origin) {
+                        fr.inl.push((name.clone(), self.files.get(&y.3).cloned(), Some(y.4)));
+                    }
+                    origin = y.5;
+                    d += 1;
+                }
+                if let Some(name) = self.origins.get(&origin) {
+                    let (file, ln) = match line {
+                        Some(l) => (self.files.get(&l.3).cloned(), if l.2 != 0 { Some(l.2) } else { None }),
+                        None => (None, None),
+                    };
+                    fr.inl.push((name.clone(), file, ln));
+                }
+            } else if let Some(l) = line {
+                if let Some(file) = self.files.get(&l.3) {
+                    fr.src = Some((file.clone(), l.2, l.0 + base));
+                }
+            }
+        } else {
+            // nearest preceding PUBLIC: greatest (address, name, parameter_size) with address <= a
+            let p = self.pubs.iter().filter(|p| p.0 <= a).max_by(|x, y| (x.0, &x.2, x.1).cmp(&(y.0, &y.2, y.1)));
+            if let Some(p) = p {
+                // cut off by a FUNC that starts at or after the PUBLIC and at or before the address
+                let cut = self.funcs.iter().any(|f| range_excl(f.addr, f.size).is_some() && f.addr <= a && p.0 <= f.addr);
+                if !cut {
+                    fr.func = Some((p.2.clone(), p.0 + base, p.1));
+                }
+            }
+        }
+        fr
+    }
+}
+
+/// the property's oracle on one implementation answer
+fn oracle(v: &View, clean: bool, base: u64, instr: u64, got: &Frame, ws: Option<&Frame>, msize: u32, out: &mut Vec<(String, String)>, tags: &mut Vec<String>) {
+    let mut fail = |class: &str, detail: String| out.push((class.to_string(), format!("instr {instr} base {base}: {detail}")));
+    // bases never exceed the instruction
+    if let Some((_, b, _)) = &got.func {
+        if *b > instr {
+            fail("function-base-above-instruction", format!("function_base {b}"));
+        }
+    }
+    if let Some((_, _, b)) = &got.src {
+        if *b > instr {
+            fail("line-base-above-instruction", format!("source_line_base {b}"));
+        }
+    }
+    if instr < base {
+        if *got != Frame::default() {
+            fail("symbol-below-module-base", format!("{got:?}"));
+        }
+        return;
+    }
+    let a = instr - base;
+    let covering: Vec<&FuncRec> = v
+        .funcs
+        .iter()
+        .filter(|f| matches!(range_excl(f.addr, f.size), Some((lo, hi)) if lo <= a && a <= hi))
+        .collect();
+    let isolated = |f: &FuncRec| {
+        let r = range_excl(f.addr, f.size).unwrap();
+        v.funcs.iter().filter(|g| !std::ptr::eq(*g, f)).all(|g| match range_excl(g.addr, g.size) {
+            Some(s) => disjoint(r, s),
+            None => true,
+        })
+    };
+    let mut reported_func: Option<&FuncRec> = None;
+    match &got.func {
+        Some((name, fb, _)) => {
+            let as_func: Vec<&&FuncRec> = covering.iter().filter(|f| f.name == *name && f.addr.checked_add(base) == Some(*fb)).collect();
+            if let Some(f) = as_func.first() {
+                tags.push("fn:func".into());
+                reported_func = Some(**f);
+            } else if v.funcs.iter().any(|f| f.name == *name) {
+                fail("reported-func-does-not-cover", format!("function {name} base {fb}; FUNC records covering the address: {:?}", covering.iter().map(|f| &f.name).collect::<Vec<_>>()));
+            } else {
+                // must be a PUBLIC
+                tags.push("fn:public".into());
+                let ps: Vec<&(u64, u32, String)> = v.pubs.iter().filter(|p| p.2 == *name && p.0.checked_add(base) == Some(*fb)).collect();
+                match ps.first() {
+                    None => fail("reported-function-is-no-record", format!("function {name} base {fb}")),
+                    Some(p) => {
+                        if p.0 > a {
+                            fail("public-after-address", format!("PUBLIC {name} at {}", p.0));
+                        }
+                        if let Some(q) = v.pubs.iter().find(|q| q.0 <= a && q.0 > p.0) {
+                            fail("public-not-nearest", format!("PUBLIC {name} at {} but {} at {} is nearer", p.0, q.2, q.0));
+                        }
+                        // a FUNC that is certainly in the table (isolated) must not cover the address or cut the PUBLIC off
+                        for f in v.funcs.iter().filter(|f| range_excl(f.addr, f.size).is_some()) {
+                            if isolated(f) {
+                                let (lo, hi) = range_excl(f.addr, f.size).unwrap();
+                                if lo <= a && a <= hi {
+                                    fail("public-although-func-covers", format!("PUBLIC {name}, FUNC {} covers", f.name));
+                                } else if lo <= a && p.0 <= lo {
+                                    fail("public-cut-off-by-func", format!("PUBLIC {name} at {} but FUNC {} starts at {lo}", p.0, f.name));
+                                }
+                            }
+                        }
+                    }
+                }
+            }
+        }
+        None => {
+            tags.push("fn:none".into());
+            if covering.is_empty() && v.pubs.iter().any(|p| p.0 <= a) {
+                tags.push("public-cut-off".into());
+            }
+            if let Some(f) = covering.iter().find(|f| isolated(f)) {
+                fail("isolated-func-not-reported", format!("FUNC {} covers the address", f.name));
+            }
+            if !covering.is_empty() {
+                tags.push("overlapping-func-dropped-at-query".into());
+            }
+        }
+    }
+    // the source line is that of the line record / outermost inline call site covering the address
+    if let (Some((file, line, lb)), Some(_)) = (&got.src, &got.func) {
+        let ok = |f: &FuncRec| {
+            f.lines.iter().any(|l| {
+                matches!(range_line(l.0, l.1), Some((lo, hi)) if lo <= a && a <= hi)
+                    && l.2 == *line
+                    && v.files.get(&l.3) == Some(file)
+                    && l.0.checked_add(base) == Some(*lb)
+            }) || f.inls.iter().any(|i| {
+                i.0 == 0 && inl_covers(i, a) && i.4 == *line && v.files.get(&i.3) == Some(file) && i.1.checked_add(base) == Some(*lb)
+            })
+        };
+        match reported_func {
+            Some(f) => {
+                // (any FUNC record equal in name/address may be the one in the table)
+                if !v.funcs.iter().filter(|g| g.name == f.name && g.addr == f.addr && g.size == f.size).any(|g| ok(g)) {
+                    fail("source-line-not-covering", format!("source {file}:{line} base {lb} matches no line/depth-0 inline record of {} covering the address", f.name));
+                }
+            }
+            None => fail("source-line-without-func", format!("source {file}:{line}")),
+        }
+    } else if got.src.is_some() {
+        fail("source-line-without-function", format!("{got:?}"));
+    }
+    // inline frames: nested calls covering the address with their call sites
+    if !got.inl.is_empty() {
+        tags.push(format!("inl-depth:{}", got.inl.len().min(9)));
+        if let Some(f) = reported_func {
+            let cands: Vec<&FuncRec> = v.funcs.iter().filter(|g| g.name == f.name && g.addr == f.addr && g.size == f.size).collect();
+            let all_named = cands.iter().all(|g| g.inls.iter().all(|i| v.origins.contains_key(&i.5)));
+            if all_named {
+                let chain_ok = |g: &FuncRec| {
+                    let n = got.inl.len();
+                    (0..n).all(|k| {
+                        let (name, file, line) = &got.inl[k];
+                        let here = g.inls.iter().any(|x| x.0 == k as u32 && inl_covers(x, a) && v.origins.get(&x.5) == Some(name));
+                        let site = if k + 1 < n {
+                            g.inls.iter().any(|y| y.0 == k as u32 + 1 && inl_covers(y, a) && v.files.get(&y.3) == file.as_ref() && Some(y.4) == *line)
+                        } else {
+                            // innermost location: the line record covering the address (or nothing)
+                            let covering_lines: Vec<_> = g.lines.iter().filter(|l| matches!(range_line(l.0, l.1), Some((lo, hi)) if lo <= a && a <= hi)).collect();
+                            // a covering line record that overlaps another line record may have been dropped
+                            // from the table (C08); then "no location" is an acceptable answer
+                            let lone = |l: &&(u64, u32, u32, u32)| {
+                                let r = range_line(l.0, l.1).unwrap();
+                                g.lines.iter().filter(|m| !std::ptr::eq(*m, *l)).all(|m| match range_line(m.0, m.1) {
+                                    Some(s) => disjoint(r, s),
+                                    None => true,
+                                })
+                            };
+                            if !covering_lines.iter().any(|l| lone(l)) && file.is_none() && line.is_none() {
+                                true
+                            } else {
+                                covering_lines.iter().any(|l| v.files.get(&l.3) == file.as_ref() && (if l.2 != 0 { Some(l.2) } else { None }) == *line)
+                            }
+                        };
+                        here && site
+                    })
+                };
+                if !cands.iter().any(|g| chain_ok(g)) {
+                    fail("inline-chain-not-covering", format!("inlines {:?} of {}", got.inl, f.name));
+                }
+            }
+        } else {
+            fail("inlines-without-func", format!("{:?}", got.inl));
+        }
+    }
+    // innermost first in the stack frame
+    if let Some(ws) = ws {
+        let mut want = got.clone();
+        want.inl.reverse();
+        let module_covers = range_excl(base, msize).map(|(lo, hi)| lo <= instr && instr <= hi).unwrap_or(false);
+        if !module_covers {
+            want = Frame::default();
+        }
+        if *ws != want {
+            fail("stack-frame-differs-from-fill-symbol", format!("walk_stack frame {ws:?}, fill_symbol (inlines reversed) {want:?}"));
+        }
+        if module_covers && got.inl.len() >= 2 {
+            tags.push("ws-reversal-observable".into());
+        }
+    }
+    // non-overlapping files: the result equals the independent linear scan
+    if clean {
+        let want = v.linear_scan(base, instr);
+        if want != *got {
+            fail("differs-from-linear-scan", format!("fill_symbol {got:?}, linear scan {want:?}"));
+        }
+    }
+}
+
+// ------------------------------------------------------------------------- generator
+
+struct Gen<'a> {
+    rng: &'a mut Rng,
+    clean: bool,
+    next_origin: u32,
+    origins_inside: Vec<R>,
+}
+
+impl Gen<'_> {
+    /// inline ranges for depth `d` inside `[lo, hi)`, recursively nested
+    fn inlines(&mut self, d: u32, lo: u64, hi: u64, maxd: u32, out: &mut Vec<R>, origin_defs: &mut Vec<(u32, String)>) {
+        if d > maxd || hi <= lo {
+            return;
+        }
+        let span = hi - lo;
+        let n = if self.clean { self.rng.range(0, 2) } else { self.rng.range(0, 3) };
+        // split [lo,hi) into up to n disjoint pieces
+        let mut cuts: Vec<u64> = (0..2 * n).map(|_| lo + self.rng.below(span + 1)).collect();
+        cuts.sort();
+        let mut pieces: Vec<(u64, u64)> = cuts.chunks(2).filter(|c| c.len() == 2).map(|c| (c[0], c[1])).collect();
+        if d <= maxd && !pieces.is_empty() && self.rng.chance(2, 3) {
+            // make the first piece start at lo (common in practice) so that chains get deep
+            pieces[0].0 = lo;
+            if pieces[0].1 <= lo {
+                pieces[0].1 = lo + 1 + self.rng.below(span);
+            }
+            let p0 = pieces[0];
+            pieces.retain(|p| *p == p0 || p.0 >= p0.1);
+        }
+        let mut i = 0;
+        while i < pieces.len() {
+            let origin = self.next_origin;
+            self.next_origin += 1;
+            origin_defs.push((origin, format!("in{origin}")));
+            let line = self.rng.range(0, 99) as u32;
+            let file = self.rng.range(0, 4) as u32;
+            // multi-range record: this record takes 1..3 consecutive pieces
+            let take = (1 + self.rng.below(3) as usize).min(pieces.len() - i);
+            let mut rs: Vec<(u64, u32)> = vec![];
+            for p in &pieces[i..i + take] {
+                let mut size = (p.1 - p.0) as u32;
+                if !self.clean && self.rng.chance(1, 12) {
+                    size = size.wrapping_add(self.rng.below(6) as u32); // overlap the neighbour
+                }
+                rs.push((p.0, size));
+            }
+            if !self.clean && self.rng.chance(1, 10) {
+                let dup = rs[0];
+                rs.push(match self.rng.below(3) {
+                    0 => dup,                                   // duplicate range
+                    1 => (dup.0, dup.1.saturating_sub(1)),      // same start, shorter
+                    _ => (dup.0.saturating_add(self.rng.below(3)), dup.1),    // shifted
+                });
+            }
+            if self.rng.chance(1, 14) {
+                rs.push((pieces[i].0, 0)); // zero-size inlinee at the start (sorts before its sibling)
+            }
+            if self.rng.chance(1, 40) && pieces[i].1 > pieces[i].0 + 1 {
+                rs.push((pieces[i].0 + 1, 0)); // zero-size inlinee strictly inside its sibling (finding C11-zero-size-inlinee, fixed)
+            }
+            let depth = if !self.clean && self.rng.chance(1, 25) { d + 1 } else { d }; // depth gap
+            out.push(R::Inline(depth, line, file, origin, rs));
+            for p in pieces[i..i + take].to_vec() {
+                self.inlines(d + 1, p.0, p.1, maxd, out, origin_defs);
+            }
+            i += take;
+        }
+    }
+}
+
+fn gen_file(rng: &mut Rng, clean: bool, region: u64, limit: u64) -> Vec<R> {
+    // `region`: where the records start; `limit`: greatest relative address that still fits base
+    let mut recs: Vec<R> = vec![];
+    let mut top: Vec<R> = vec![];
+    let nfiles = rng.range(2, 5) as u32;
+    for i in 0..nfiles {
+        if rng.chance(5, 6) {
+            top.push(R::File(i, format!("file{i}")));
+        }
+    }
+    if rng.chance(1, 6) {
+        top.push(R::File(0, "file0_again".into())); // duplicate id: last wins
+    }
+    let nfunc = rng.range(0, 4);
+    let mut cursor = region.saturating_add(rng.below(8));
+    let mut origin_defs_outside: Vec<R> = vec![];
+    let mut g = Gen { rng, clean, next_origin: 1, origins_inside: vec![] };
+    let mut body: Vec<R> = vec![];
+    let mut func_spans: Vec<(u64, u64)> = vec![];
+    let mut pub_n = 0;
+    let mut add_pub = |g: &mut Gen, body: &mut Vec<R>, addr: u64| {
+        let name = format!("p{pub_n}");
+        pub_n += 1;
+        body.push(R::Pub(addr, g.rng.below(40) as u32, name));
+    };
+    // PUBLICs before the first FUNC
+    if g.rng.chance(1, 2) {
+        let a = region.saturating_sub(g.rng.below(4));
+        add_pub(&mut g, &mut body, a);
+    }
+    for fi in 0..nfunc {
+        let size = match g.rng.below(12) {
+            0 => 0u32,
+            1 => 1,
+            _ => g.rng.range(2, 0x40) as u32,
+        };
+        let mut addr = cursor;
+        if !clean && fi > 0 && g.rng.chance(1, 4) {
+            // overlap / duplicate a previous FUNC
+            let p = func_spans[g.rng.below(func_spans.len() as u64) as usize];
+            addr = match g.rng.below(3) {
+                0 => p.0,
+                1 => p.0 + g.rng.below((p.1 - p.0).max(1)),
+                _ => p.1.saturating_sub(1),
+            };
+        }
+        if addr > limit {
+            addr = limit;
+        }
+        let end = addr.saturating_add(size as u64);
+        func_spans.push((addr, end.max(addr + 0)));
+        body.push(R::Func(addr, size, g.rng.below(60) as u32, format!("f{fi}")));
+        let mut subs: Vec<R> = vec![];
+        // line records: a partition of the function with gaps, zero-size lines, overlaps
+        let mut a = addr;
+        let hi = addr.saturating_add(size as u64);
+        let mut guard = 0;
+        while a < hi && guard < 12 {
+            guard += 1;
+            let remaining = hi - a;
+            let ls = (1 + g.rng.below(remaining.min(24))) as u32;
+            let kind = g.rng.below(14);
+            let line = if g.rng.chance(1, 12) { 0 } else { g.rng.range(1, 200) as u32 };
+            let file = g.rng.range(0, 5) as u32;
+            match kind {
+                0 => subs.push(R::Line(a, 0, line, file)), // zero-size line (dropped)
+                1 => {} // gap
+                2 if !clean => {
+                    subs.push(R::Line(a, ls, line, file));
+                    subs.push(R::Line(a, ls, line + 1, file)); // same range, other value
+                }
+                3 if !clean => {
+                    subs.push(R::Line(a, ls + 2, line, file)); // overlaps the next
+                }
+                4 if !clean => {
+                    subs.push(R::Line(a, ls, line, file));
+                    subs.push(R::Line(a, ls, line, file)); // exact duplicate
+                }
+                _ => subs.push(R::Line(a, ls, line, file)),
+            }
+            if kind != 0 {
+                a += ls as u64;
+            }
+        }
+        if !clean && g.rng.chance(1, 10) {
+            subs.push(R::Line(hi, 4, 7, 1)); // a line outside the function
+        }
+        // inline records
+        if size > 0 && g.rng.chance(3, 4) {
+            let maxd = match g.rng.below(6) {
+                0 => 0,
+                1 | 2 => 2,
+                3 => 4,
+                _ => 8,
+            };
+            let mut defs: Vec<(u32, String)> = vec![];
+            let mut inl: Vec<R> = vec![];
+            g.inlines(0, addr, hi, maxd, &mut inl, &mut defs);
+            // where the INLINE_ORIGIN records go: before the file's FUNCs, inside this block, after everything, or nowhere
+            for (id, name) in defs {
+                match g.rng.below(16) {
+                    0 => {} // undefined origin
+                    1..=5 => subs.insert(g.rng.below(subs.len() as u64 + 1) as usize, R::OriginIn(id, name)),
+                    6..=10 => top.push(R::Origin(id, name)),
+                    _ => origin_defs_outside.push(R::Origin(id, name)),
+                }
+            }
+            for r in inl {
+                let at = g.rng.below(subs.len() as u64 + 1) as usize;
+                subs.insert(at, r);
+            }
+        }
+        body.extend(subs);
+        // STACK WIN parameter sizes
+        if size > 0 && g.rng.chance(1, 3) {
+            let ty = if g.rng.chance(1, 2) { 4 } else { 0 };
+            let (wa, wsz) = if clean || g.rng.chance(2, 3) { (addr, size) } else { (addr.saturating_add(g.rng.below(3)), size / 2 + 1) };
+            body.push(R::Win(ty, wa, wsz, 100 + g.rng.below(50) as u32));
+            if g.rng.chance(1, 3) {
+                body.push(R::Win(4 - ty, addr, size, 200 + g.rng.below(50) as u32));
+            }
+        }
+        // PUBLICs: at the FUNC's start, inside, right after it, in the gap
+        match g.rng.below(8) {
+            0 => add_pub(&mut g, &mut body, addr),
+            1 => add_pub(&mut g, &mut body, addr.saturating_add((size as u64) / 2)),
+            2 => add_pub(&mut g, &mut body, end),
+            3 => {
+                add_pub(&mut g, &mut body, end);
+                add_pub(&mut g, &mut body, end); // same address, other name
+            }
+            4 => add_pub(&mut g, &mut body, end.saturating_add(2)),
+            _ => {}
+        }
+        cursor = end.saturating_add(match g.rng.below(4) {
+            0 => 0,
+            1 => 1,
+            _ => g.rng.below(12),
+        });
+        if cursor > limit {
+            cursor = limit;
+        }
+    }
+    // PUBLICs after the last FUNC
+    if g.rng.chance(1, 2) {
+        let a = cursor.saturating_add(g.rng.below(6)).min(limit);
+        add_pub(&mut g, &mut body, a);
+    }
+    let _ = &g.origins_inside;
+    recs.extend(top);
+    recs.extend(body);
+    recs.extend(origin_defs_outside);
+    recs
+}
+
+fn queries(recs: &[R], base: u64, rng: &mut Rng) -> Vec<u64> {
+    let mut rel: Vec<u64> = vec![];
+    let mut around = |lo: u64, size: u64| {
+        let end = lo.saturating_add(size);
+        rel.extend([lo.wrapping_sub(1), lo, end.wrapping_sub(1), end]);
+    };
+    for r in recs {
+        match r {
+            R::Pub(a, _, _) => around(*a, 1),
+            R::Win(_, a, s, _) | R::Func(a, s, _, _) => around(*a, *s as u64),
+            R::Line(a, s, _, _) => around(*a, *s as u64),
+            R::Inline(_, _, _, _, rs) => {
+                for (a, s) in rs {
+                    around(*a, *s as u64);
+                }
+            }
+            _ => {}
+        }
+    }
+    let mut qs: Vec<u64> = rel.iter().filter_map(|a| a.checked_add(base)).collect();
+    qs.push(base);
+    if base > 0 {
+        qs.push(base - 1);
+    }
+    qs.push(rng.next());
+    qs.sort();
+    qs.dedup();
+    while qs.len() > 48 {
+        let i = rng.below(qs.len() as u64) as usize;
+        qs.remove(i);
+    }
+    qs
+}
+
+/// exhaustive small domains: (1) every list of up to 2 (quick) / 3 (thorough) INLINE ranges over
+/// depth {0,1} x start {4,6,8} x size {0,2,4} inside `FUNC 4 8`, queried at every address 3..=13 —
+/// all duplicate / nested / touching constellations of the `(depth, address)` binary search;
+/// (2) every choice of up to 2 FUNCs from 5 and up to 2 PUBLICs from 7 addresses, queried at 0..=11 —
+/// all constellations of the PUBLIC fallback and the previous-FUNC cut-off.
+fn exhaustive(tier: Tier, emit: &mut dyn FnMut(String)) {
+    let bases = [0u64, u64::MAX - 13];
+    let mut cands: Vec<(u32, u64, u32)> = vec![];
+    for d in 0..2u32 {
+        for a in [4u64, 6, 8] {
+            for s in [0u32, 2, 4] {
+                cands.push((d, a, s));
+            }
+        }
+    }
+    let maxlen = if tier == Tier::Quick { 2 } else { 3 };
+    let mut stack: Vec<Vec<usize>> = vec![vec![]];
+    let mut k = 0usize;
+    while let Some(cur) = stack.pop() {
+        if !cur.is_empty() {
+            let base = bases[k % 2];
+            k += 1;
+            let mut recs = vec![
+                R::File(1, "a".into()),
+                R::Origin(1, "o1".into()),
+                R::Origin(2, "o2".into()),
+                R::Origin(3, "o3".into()),
+                R::Func(4, 8, 0, "f".into()),
+                R::Line(4, 4, 7, 1),
+                R::Line(8, 4, 9, 1),
+            ];
+            for (j, &i) in cur.iter().enumerate() {
+                let (d, a, sz) = cands[i];
+                recs.push(R::Inline(d, 10 + j as u32, 1, 1 + j as u32, vec![(a, sz)]));
+            }
+            let qs: Vec<u64> = (3..=13u64).map(|a| base + a).collect();
+            emit(render_case(base, 64, &qs, &recs));
+        }
+        if cur.len() < maxlen {
+            for i in 0..cands.len() {
+                let mut n = cur.clone();
+                n.push(i);
+                stack.push(n);
+            }
+        }
+    }
+    let funcs: [(u64, u32); 5] = [(2, 2), (4, 2), (4, 4), (8, 1), (6, 0)];
+    let paddrs: [u64; 7] = [1, 2, 3, 4, 6, 8, 9];
+    let mut fsets: Vec<Vec<usize>> = vec![vec![]];
+    for i in 0..funcs.len() {
+        fsets.push(vec![i]);
+        for j in 0..funcs.len() {
+            if i != j {
+                fsets.push(vec![i, j]);
+            }
+        }
+    }
+    let mut psets: Vec<Vec<usize>> = vec![];
+    for i in 0..paddrs.len() {
+        psets.push(vec![i]);
+        for j in i..paddrs.len() {
+            psets.push(vec![i, j]);
+        }
+    }
+    for (n, fs) in fsets.iter().enumerate() {
+        for (m, ps) in psets.iter().enumerate() {
+            let base = bases[(n + m) % 2];
+            let mut recs = vec![];
+            // PUBLICs before, between and after the FUNCs in the file (position must not matter)
+            for (t, &i) in ps.iter().enumerate() {
+                if t == 0 {
+                    recs.push(R::Pub(paddrs[i], t as u32, format!("p{t}")));
+                }
+            }
+            for (t, &i) in fs.iter().enumerate() {
+                recs.push(R::Func(funcs[i].0, funcs[i].1, 0, format!("f{t}")));
+                if t == 0 && ps.len() > 1 {
+                    recs.push(R::Pub(paddrs[ps[1]], 1, "p1".into()));
+                }
+            }
+            if fs.is_empty() && ps.len() > 1 {
+                recs.push(R::Pub(paddrs[ps[1]], 1, "p1".into()));
+            }
+            let qs: Vec<u64> = (0..=11u64).map(|a| base + a).collect();
+            emit(render_case(base, 64, &qs, &recs));
+        }
+    }
+}
+
+fn generate_inner(tier: Tier, rng: &mut Rng, emit: &mut dyn FnMut(String)) {
+    exhaustive(tier, emit);
+    {
+        let n = if tier == Tier::Quick { 12000 } else { 150000 };
+        for k in 0..n {
+            let clean = k % 2 == 0;
+            let base: u64 = match rng.below(5) {
+                0 => 0,
+                1 => 0x1000,
+                2 => 1u64 << 32,
+                3 => u64::MAX - rng.below(0x3000),
+                _ => u64::MAX - rng.below(0x200),
+            };
+            let limit = u64::MAX - base; // greatest relative address with base + a <= u64::MAX
+            let region = match rng.below(8) {
+                0 => 0,
+                1 => (1u64 << 32) - 0x20,
+                2 => limit.saturating_sub(rng.below(0x100)),
+                3 => limit.saturating_sub(0x100),
+                4 => u64::MAX - rng.below(0x80), // records beyond what base + a can reach
+                _ => rng.below(0x200),
+            };
+            let lim = if rng.chance(1, 8) { u64::MAX } else { limit };
+            let recs = gen_file(rng, clean, region.min(u64::MAX - 1), lim);
+            let qs = queries(&recs, base, rng);
+            let maxq = qs.iter().copied().filter(|q| *q >= base).max().unwrap_or(base);
+            let msize: u32 = match rng.below(8) {
+                0 => rng.below(0x80) as u32,
+                1 => u32::MAX,
+                _ => (maxq - base).saturating_add(1).min(u32::MAX as u64) as u32,
+            };
+            emit(render_case(base, msize, &qs, &recs));
+        }
+    }
+}
+
+fn exec_inner(case: &str) -> ImplResult {
+    {
+        let mut res = ImplResult::default();
+        let Some(c) = parse_case(case) else {
+            res.out = "bad-op".into();
+            return res;
+        };
+        let text = render_text(&c.recs);
+        let sf = match catch(|| SymbolFile::from_bytes(text.as_bytes())) {
+            Ok(Ok(sf)) => sf,
+            Ok(Err(e)) => {
+                res.out = format!("PARSE-ERROR {e:?}");
+                return res;
+            }
+            Err(msg) => {
+                res.out = "PANIC".into();
+                res.oracle.push(("symbol-file-build-panics".into(), msg));
+                return res;
+            }
+        };
+        let v = view(&c.recs);
+        let clean = v.non_overlapping();
+        res.tags.push(if clean { "file:non-overlapping".into() } else { "file:overlapping".into() });
+        if v.funcs.iter().any(|f| {
+            f.inls.iter().any(|z| z.2 == 0 && f.inls.iter().any(|x| x.0 == z.0 && x.1 < z.1 && (z.1 as u128) < x.1 as u128 + x.2 as u128))
+        }) {
+            res.tags.push("has:zero-size-inlinee-inside-sibling".into());
+        }
+        res.tags.push(format!("funcs:{}", v.funcs.len()));
+        // generator quality: which of the quantifier's shapes this file has
+        if v.funcs.iter().any(|f| f.lines.iter().any(|l| l.1 == 0)) {
+            res.tags.push("has:zero-size-line".into());
+        }
+        if v.funcs.iter().any(|f| f.size > 0 && f.addr.checked_add(f.size as u64).is_none()) {
+            res.tags.push("has:func-range-overflow".into());
+        }
+        if v.funcs.iter().any(|f| f.inls.iter().any(|i| i.1.checked_add(i.2 as u64).is_none())) {
+            res.tags.push("has:inlinee-end-overflow".into());
+        }
+        if v.funcs.iter().any(|f| {
+            f.inls.iter().enumerate().any(|(i, x)| f.inls.iter().skip(i + 1).any(|y| x.0 == y.0 && x.1 == y.1))
+        }) {
+            res.tags.push("has:duplicate-inlinee-key".into());
+        }
+        if v.funcs.iter().any(|f| f.inls.iter().any(|i| !v.origins.contains_key(&i.5))) {
+            res.tags.push("has:missing-origin".into());
+        }
+        if c.recs.iter().any(|r| matches!(r, R::OriginIn(..))) {
+            res.tags.push("has:origin-inside-func".into());
+        }
+        if c.recs.iter().any(|r| matches!(r, R::Inline(_, _, _, _, rs) if rs.len() > 1)) {
+            res.tags.push("has:multi-range-inline".into());
+        }
+        if !v.wins.is_empty() {
+            res.tags.push("has:stack-win".into());
+        }
+        if v.pubs.iter().enumerate().any(|(i, p)| v.pubs.iter().skip(i + 1).any(|q| q.0 == p.0)) {
+            res.tags.push("has:publics-same-address".into());
+        }
+        let maxd = v.funcs.iter().flat_map(|f| f.inls.iter().map(|i| i.0)).max();
+        if let Some(d) = maxd {
+            res.tags.push(format!("max-inline-depth:{}", d.min(9)));
+        }
+        res.tags.push(format!(
+            "base:{}",
+            match c.base {
+                0 => "0",
+                0x1000 => "0x1000",
+                0x1_0000_0000 => "2^32",
+                _ => "top",
+            }
+        ));
+        let module = MinidumpModule::new(c.base, c.msize, "m");
+        let modules = MinidumpModuleList::from_modules(vec![MinidumpModule::new(c.base, c.msize, "m")]);
+        let mut symbols = HashMap::new();
+        symbols.insert("m".to_string(), text.clone());
+        let symbolizer = Symbolizer::new(string_symbol_supplier(symbols));
+        let mut parts: Vec<String> = vec![];
+        for &q in &c.qs {
+            let direct = catch(|| {
+                let mut rec = Recorder { instruction: q, fr: Frame::default() };
+                sf.fill_symbol(&module, &mut rec);
+                rec.fr
+            });
+            let ws = catch(|| walk_frame(&symbolizer, &modules, q));
+            let a = match &direct {
+                Ok(fr) => show_frame(fr),
+                Err(msg) => {
+                    res.oracle.push(("fill-symbol-panics".into(), format!("instr {q}: {msg}")));
+                    "PANIC".into()
+                }
+            };
+            let b = match &ws {
+                Ok(fr) => show_frame(fr),
+                Err(msg) => {
+                    res.oracle.push(("walk-stack-panics".into(), format!("instr {q}: {msg}")));
+                    "PANIC".into()
+                }
+            };
+            if let Ok(fr) = &direct {
+                if fr.func.is_some() {
+                    res.nontrivial = true;
+                }
+                oracle(&v, clean, c.base, q, fr, ws.as_ref().ok(), c.msize, &mut res.oracle, &mut res.tags);
+            }
+            parts.push(format!("{q}:{a};ws={b}"));
+        }
+        res.tags.sort();
+        res.tags.dedup();
+        res.out = parts.join("|");
+        res
+    }
+}
 
 impl Engine for Symb {
     fn name(&self) -> &'static str {
         "symb"
     }
     fn rule(&self) -> String {
-        "not implemented".into()
+        "case = (symbol records, module base, module size, instruction addresses). exhaustive small domains (see exhaustive_part) + random files: 0..4 FUNCs with line tables (gaps, zero-size, duplicate/overlapping lines), INLINE records nested to depth 8 with multi-range records, zero-size/duplicate/overlapping/depth-gap inlinees, INLINE_ORIGIN before/inside/after FUNC blocks or missing, PUBLICs before/at/inside/after FUNCs incl. equal addresses, duplicate FILE ids, STACK WIN 4/0 parameter sizes; half of the files non-overlapping (linear-scan oracle applies), half with overlapping/duplicate FUNCs. Regions: low addresses, around 2^32, top of the u64 space. Bases {0, 0x1000, 2^32, 2^64-1-k}. Addresses: start-1, start, end-1, end of every record + base-1, base, one random. non-trivial = at least one address resolved to a function; distinct = distinct case line".into()
     }
-    fn generate(&self, _tier: Tier, _rng: &mut Rng, _emit: &mut dyn FnMut(String)) {}
-    fn exec(&self, _case: &str) -> ImplResult {
-        ImplResult::default()
+    fn exhaustive_part(&self) -> Option<String> {
+        Some("all lists of <= 2 (quick) / <= 3 (thorough) INLINE ranges over depth {0,1} x start {4,6,8} x size {0,2,4} inside FUNC 4 8, every address 3..=13; all choices of <= 2 FUNCs (from 5) and <= 2 PUBLICs (from 7 addresses), every address 0..=11; bases 0 and 2^64-14".into())
+    }
+
+    fn generate(&self, tier: Tier, rng: &mut Rng, emit: &mut dyn FnMut(String)) {
+        // a panic in the generator (outside `exec`) would be swallowed by the quiet hook: report it
+        if let Err(msg) = catch(|| generate_inner(tier, rng, emit)) {
+            eprintln!("symb generator panicked: {msg}");
+            std::process::exit(3);
+        }
+    }
+
+    fn exec(&self, case: &str) -> ImplResult {
+        match catch(|| exec_inner(case)) {
+            Ok(r) => r,
+            Err(msg) => ImplResult { out: "HARNESS-PANIC".into(), oracle: vec![("harness-panics".into(), msg)], ..Default::default() },
+        }
+    }
+
+    fn shrink(&self, case: &str, still_fails: &dyn Fn(&str) -> bool) -> String {
+        let Some(c) = parse_case(case) else { return case.to_string() };
+        let (mut qs, mut recs) = (c.qs, c.recs);
+        let mut progress = true;
+        while progress {
+            progress = false;
+            let mut i = 0;
+            while qs.len() > 1 && i < qs.len() {
+                let mut cand = qs.clone();
+                cand.remove(i);
+                if still_fails(&render_case(c.base, c.msize, &cand, &recs)) {
+                    qs = cand;
+                    progress = true;
+                } else {
+                    i += 1;
+                }
+            }
+            let mut i = 0;
+            while i < recs.len() {
+                let mut cand = recs.clone();
+                cand.remove(i);
+                let line = render_case(c.base, c.msize, &qs, &cand);
+                if parse_case(&line).is_some() && still_fails(&line) {
+                    recs = cand;
+                    progress = true;
+                    continue;
+                }
+                // split a multi-range INLINE record
+                if let R::Inline(d, l, f, o, rs) = &recs[i] {
+                    if rs.len() > 1 {
+                        let mut shrunk = false;
+                        for k in 0..rs.len() {
+                            let mut rs2 = rs.clone();
+                            rs2.remove(k);
+                            let mut cand = recs.clone();
+                            cand[i] = R::Inline(*d, *l, *f, *o, rs2);
+                            if still_fails(&render_case(c.base, c.msize, &qs, &cand)) {
+                                recs = cand;
+                                progress = true;
+                                shrunk = true;
+                                break;
+                            }
+                        }
+                        if shrunk {
+                            continue;
+                        }
+                    }
+                }
+                i += 1;
+            }
+        }
+        render_case(c.base, c.msize, &qs, &recs)
     }
 }
